@@ -57,7 +57,7 @@ err_t ch_recv_msg(endpoint* ep, octet* buf, size_t* len, size_t max);
 err_t ch_send_msg(endpoint* ep, const octet* buf, size_t len);
 
 /* seeded tape generator (gen_i) */
-typedef struct { sk_rng r; int mode; unsigned calls; } tape_t; /* mode 0 uniform, 1 first draws zero, 2 first draws FF, 3 all zero */
+typedef struct { sk_rng r; int mode; unsigned calls; unsigned flip_call; } tape_t; /* flip_call: 1-based draw whose lowest bit is inverted (0: none) */ /* mode 0 uniform, 1 first draws zero, 2 first draws FF, 3 all zero */
 void tape_gen(void* buf, size_t count, void* state);
 
 /* sub-engines */
@@ -66,6 +66,7 @@ void run_bake_sweep(uint64_t seed, const sk_mask* mask, sk_result* out);
 void run_bake_base(uint64_t seed, const sk_mask* mask, sk_result* out);
 void run_bake_diff(uint64_t seed, const sk_mask* mask, sk_result* out);
 void run_bake_adv(uint64_t seed, const sk_mask* mask, sk_result* out);
+void run_bake_tape(uint64_t seed, const sk_mask* mask, sk_result* out);
 void run_sm(uint64_t seed, const sk_mask* mask, sk_result* out);
 void run_cvc(uint64_t seed, const sk_mask* mask, sk_result* out);
 void run_pki(uint64_t seed, const sk_mask* mask, sk_result* out);
